@@ -9,6 +9,7 @@ handed to the next process.
 
 from __future__ import annotations
 
+import contextlib
 import copy
 import os
 import pickle
@@ -547,6 +548,7 @@ def run_process(
     ck = scn["checkpoint"]
     sampler_name = scn["sampler"]
     A = None
+    auto_ctx = None
     cur = {"sampler": None}
     try:
         with entropy_seam(int(scn["seeds"]["entropy"]) + 1000 * proc_no, trace) as es:
@@ -562,6 +564,11 @@ def run_process(
                     A = Aspire(**aspire_kwargs(scn, model))
                     x_train = training_samples(scn)
                     fit_kw = dict(scn.get("fit_kwargs") or {})
+                    if ck["mode"] == "auto" and ck.get("fit_in_context"):
+                        # the whole workflow -- fit, then sample -- happens inside ONE auto_checkpoint context
+                        auto_ctx = A.auto_checkpoint(file_path, every=ck["every"])
+                        auto_ctx.__enter__()
+                        trace.log("auto_context_entered_before_fit")
                     A.fit(Samples(x_train, parameters=model.target.parameters, xp=xp_of(scn["xp"])), **fit_kw)
                 res.aspire = A
                 res.flow_fingerprint = getattr(A.flow, "fingerprint", None)
@@ -649,7 +656,12 @@ def run_process(
                             kw["xp"] = xp_of(scn["xp_out"])
                         kw["return_history"] = True
                         if ck["mode"] == "auto":
-                            with A.auto_checkpoint(file_path, every=ck["every"]):
+                            with (A.auto_checkpoint(file_path, every=ck["every"]) if auto_ctx is None else contextlib.nullcontext()):
+                                if ck.get("earlier_call_in_context") and resume is None:
+                                    # another sampling call in the same context comes first (it leaves its own configuration
+                                    # in the file and in the context's bookkeeping)
+                                    A.sample_posterior(12, sampler="importance")
+                                    trace.log("earlier_call_in_context_done")
                                 return A.sample_posterior(scn["n_samples"], sampler=sampler_name, **kw)
                         return A.sample_posterior(scn["n_samples"], sampler=sampler_name, **kw)
                     if scn.get("api") == "base_smc":
@@ -716,6 +728,11 @@ def run_process(
                 res.tb = traceback.format_exc()
             res.entropy_requests = es.requests
     finally:
+        if auto_ctx is not None:
+            try:
+                auto_ctx.__exit__(None, None, None)
+            except Exception:  # noqa: BLE001
+                pass
         _restore_seam(prev_seam)
         FileSeam.restore(prev_fseam)
 
